@@ -4,6 +4,16 @@ import json, os
 V = os.path.dirname(os.path.dirname(os.path.abspath(__file__)))
 
 CLAIMED = {
+ "C14": dict(
+   category="proof", design_ref="DESIGN.md §5 C14",
+   text="15 Lean theorems for ALL values of the mutual inductive Val (every integer/float width, strings, binaries, booleans, errors, nil, nested slices and maps; no well-formedness hypothesis needed): C14.equal_refl / equal_symm / equal_trans, C14.cmp_antisymm (cmp a b = -cmp b a), C14.cmp_trans (+ strict variants), C14.cmp_total, C14.equal_iff_cmp_zero, C14.equal_hash, C14.cross_kind. Floats are IEEE-754 bit patterns with the cmp.Compare order, hashing is FNV-1a-64 re-implemented on UInt64; kind ranks come from Generated/Kinds.lean, regenerated from value.go on every run. Tied to the code by differential execution of Equal/Compare/Hash on pools of 64–80 delicate values (all ordered pairs: 33k quick, 384k thorough) and an independent Go oracle of the laws incl. stability under mutation of derived values.",
+   note="hash/fnv and IEEE-754 ordering are re-implemented in Lean and tied to Go by the correspondence only; amd64 (64-bit int, little-endian integer hashing) assumed; mutable and immutable views of a map are one model value; Buffer values are covered by the oracle only. Trusted: Lean kernel, harness, extractor for the Kind table.",
+   technique="Lean 4 proof (mutual structural induction over values) + model/implementation differential correspondence"),
+ "C15": dict(
+   category="proof", design_ref="DESIGN.md §5 C15",
+   text="11 Lean theorems about the heap model of types.Map (tables and mutable objects are addressed, so aliasing bugs can exist in the model): C15.search_correct (binary search in a bucket), C15.buckets_sorted (table invariant preserved by every program of Set/Delete/Clear/Mutable/Immutable on any handles, colliding hashes included), C15.no_panic, C15.map_refines_partial (per-step dictionary laws keyed by value equality: Get/Has/Set/Delete/Len/Keys/Range), C15.snapshot_stable / snapshot_stable_general (no operation on any handle derived from an immutable map changes any table that existed before). The whole-history refinement against the association-list spec is stated (C15.map_refines_full) but not proved. Tied to the code by differential execution of op histories over a 19-key colliding key set with every retained snapshot re-read after every step.",
+   note="Bucket arrays are stored by value inside tables: the pinned bucket-sharing bug itself is not expressible in the model (it is covered by the oracle and the corpus witness). mutableMap.Immutable() aliasing follows the 'derived from' reading. Trusted: Lean kernel, harness, value model of C14.",
+   technique="Lean 4 proof (heap invariant by induction over operation programs, frame rule for snapshots) + model/implementation differential correspondence"),
  "C01": dict(
    category="proof", design_ref="DESIGN.md §5 C01",
    text="21 Lean theorems over ALL histories of {link, unlink, write, answer, close reader, deliver drop, close writer} on the index-addressed model of packet.Writer/Reader: C01.no_panic (index arithmetic in range), C01.exactly_one_response (#responses + #pending = #accepted writes), C01.unaccepted_write_emits_nothing, C01.head_incomplete, C01.refines_partial / in_order_partial / pending_backed_partial (observations equal the id-keyed specification, responses in write order, each the join of its row) under NoRelink, join laws, pump FIFO. The unconditional refinement is refuted (C01.refines_full_false, decide witness) – that is the known finding relink-with-pending. Tied to the code by differential execution of one real Writer with up to 5 Readers (deferred drop notifications made explicit steps by a verif-tagged yield hook), 2.5k histories quick, 290k thorough incl. all histories of length ≤ 6 over 2 readers; independent Go oracle over the harness's write log.",
